@@ -107,6 +107,33 @@ fn handle(entry: &str, bytes: &[u8]) -> String {
                 HeaderResult::V2(x) => format!("V2 {} complete={}", v2_result(x), r.is_complete()),
             }
         }
+        "v1_fmt" => {
+            // payload: ASCII "0" | "4 <src u32> <dst u32> <sp> <dp>" | "6 <src u128> <dst u128> <sp> <dp>"
+            let spec = String::from_utf8_lossy(bytes).to_string();
+            let f: Vec<&str> = spec.split(' ').collect();
+            let a = match f[0] {
+                "4" => v1::Addresses::new_tcp4(
+                    f[1].parse::<u32>().unwrap(),
+                    f[2].parse::<u32>().unwrap(),
+                    f[3].parse::<u16>().unwrap(),
+                    f[4].parse::<u16>().unwrap(),
+                ),
+                "6" => v1::Addresses::new_tcp6(
+                    f[1].parse::<u128>().unwrap(),
+                    f[2].parse::<u128>().unwrap(),
+                    f[3].parse::<u16>().unwrap(),
+                    f[4].parse::<u16>().unwrap(),
+                ),
+                _ => v1::Addresses::Unknown,
+            };
+            let text = a.to_string();
+            let r1 = v1::Header::try_from(text.as_str()).map(|h| h.addresses == a && h.header == text && h.to_string() == text).unwrap_or(false);
+            let r2 = v1::Header::try_from(text.as_bytes()).map(|h| h.addresses == a && h.header == text).unwrap_or(false);
+            let r3 = text.parse::<v1::Addresses>().map(|x| x == a).unwrap_or(false);
+            let r4 = text.parse::<v1::Header<'static>>().map(|h| h.addresses == a && h.header == text).unwrap_or(false);
+            format!("fmt={} len={} roundtrip={}", hex(text.as_bytes()), text.len(), r1 && r2 && r3 && r4)
+        }
+        "v2_builder" => builder_history(&String::from_utf8_lossy(bytes)),
         "ip4" => match std::str::from_utf8(bytes).ok().and_then(|s| s.parse::<std::net::Ipv4Addr>().ok()) {
             Some(a) => format!("Ok {}", u32::from(a)),
             None => "Err".into(),
@@ -116,6 +143,78 @@ fn handle(entry: &str, bytes: &[u8]) -> String {
             None => "Err".into(),
         },
         _ => "UnknownEntry".into(),
+    }
+}
+
+/// Replays a builder call history against the real Builder and an independent ghost.
+/// spec: `new:VC:AFP` or `ipv4:VC:PROTO:<24 hex digits>` followed by `;`-separated ops:
+/// setsome:X setnone reserve:C u8:X u16:X type slice:N tlv:T:N batch:N:Y
+fn builder_history(spec: &str) -> String {
+    use ppp::v2::{Addresses, Builder, IPv4, Protocol, Type};
+    let mut parts = spec.split(';');
+    let ctor: Vec<&str> = parts.next().unwrap_or("").split(':').collect();
+    let num = |s: &str| s.parse::<u64>().unwrap_or(0);
+    let mut expect: Vec<u8> = Vec::new();
+    let mut explicit: Option<u16> = None;
+    let (mut b, vc, afp) = if ctor[0] == "ipv4" {
+        let vc = num(ctor[1]) as u8;
+        let p = num(ctor[2]) as u8;
+        let proto = match p { 0 => Protocol::Unspecified, 1 => Protocol::Stream, _ => Protocol::Datagram };
+        let ab = unhex(ctor[3]);
+        expect.extend_from_slice(&ab);
+        let a = IPv4::new([ab[0], ab[1], ab[2], ab[3]], [ab[4], ab[5], ab[6], ab[7]], u16::from_be_bytes([ab[8], ab[9]]), u16::from_be_bytes([ab[10], ab[11]]));
+        (Builder::with_addresses(vc, proto, Addresses::IPv4(a)), vc, 0x10 | p)
+    } else {
+        let (vc, afp) = (num(ctor[1]) as u8, num(ctor[2]) as u8);
+        (Builder::new(vc, afp), vc, afp)
+    };
+    let fill = |n: usize| -> Vec<u8> { (0..n).map(|i| (i % 251) as u8).collect() };
+    for (i, op) in parts.enumerate() {
+        let f: Vec<&str> = op.split(':').collect();
+        let before = expect.len();
+        let r = match f[0] {
+            "setsome" => { explicit = Some(num(f[1]) as u16); Ok(b.set_length(num(f[1]) as u16)) }
+            "setnone" => { explicit = None; Ok(b.set_length(None)) }
+            "reserve" => Ok(b.reserve_capacity(num(f[1]) as usize)),
+            "u8" => { expect.push(num(f[1]) as u8); b.write_payload(num(f[1]) as u8) }
+            "u16" => { expect.extend_from_slice(&(num(f[1]) as u16).to_be_bytes()); b.write_payload(num(f[1]) as u16) }
+            "type" => { expect.push(4); b.write_payload(Type::NoOp) }
+            "slice" => { let v = fill(num(f[1]) as usize); expect.extend_from_slice(&v); b.write_payload(v.as_slice()) }
+            "tlv" => {
+                let v = fill(num(f[2]) as usize);
+                expect.push(num(f[1]) as u8);
+                expect.extend_from_slice(&(v.len() as u16).to_be_bytes());
+                expect.extend_from_slice(&v);
+                b.write_tlv(num(f[1]) as u8, v.as_slice())
+            }
+            "batch" => {
+                let v = fill(num(f[1]) as usize);
+                let y = [num(f[2]) as u8];
+                expect.extend_from_slice(&v);
+                expect.push(y[0]);
+                b.write_payloads([v.as_slice(), &y[..]])
+            }
+            _ => return "builder bad-spec".into(),
+        };
+        match r {
+            Ok(nb) => b = nb,
+            Err(_) => {
+                let n = match f[0] { "slice" | "batch" => num(f[1]) as usize, "tlv" => num(f[2]) as usize, _ => 0 };
+                let enc = match f[0] { "tlv" => n + 3, "batch" => n + 1, "slice" => n, "u16" => 2, _ => 1 };
+                let legit = n > 65535 || before + enc > 65535;
+                return format!("builder call {} ({}) failed legit={}", i, f[0], legit);
+            }
+        }
+    }
+    match b.build() {
+        Ok(out) => {
+            let field = if out.len() >= 16 { u16::from_be_bytes([out[14], out[15]]) as usize } else { usize::MAX };
+            let want = explicit.map(|x| x as usize).unwrap_or(expect.len());
+            let c09 = field == want && (explicit.is_some() || expect.len() <= 65535);
+            let c10 = out.len() == 16 + expect.len() && out[..12] == [0x0D, 0x0A, 0x0D, 0x0A, 0x00, 0x0D, 0x0A, 0x51, 0x55, 0x49, 0x54, 0x0A] && out[12] == vc && out[13] == afp && out[16..] == expect[..];
+            format!("builder built len={} field={} c09={} c10={}", out.len(), field, c09, c10)
+        }
+        Err(_) => format!("builder build failed legit={}", explicit.is_none() && expect.len() > 65535),
     }
 }
 
